@@ -2,7 +2,17 @@
 import importlib
 import sys
 
-MODULES = ["vlib.oracles.selfcheck_core"]
+MODULES = ["vlib.oracles.selfcheck_core", "vlib.oracles.fst", "vlib.oracles.ig", "vlib.oracles.fs", "vlib.oracles.ll1",
+           "vlib.oracles.trees"]
+
+
+def _needs_args(fn):
+    import inspect
+    try:
+        return any(p.default is p.empty and p.kind in (p.POSITIONAL_ONLY, p.POSITIONAL_OR_KEYWORD)
+                   for p in inspect.signature(fn).parameters.values())
+    except (TypeError, ValueError):
+        return True
 
 
 def main():
@@ -13,9 +23,10 @@ def main():
         except ImportError:
             continue
         for fn_name in sorted(dir(mod)):
-            if fn_name.startswith("check_"):
+            fn = getattr(mod, fn_name)
+            if fn_name.startswith("check_") and callable(fn) and not _needs_args(fn):
                 try:
-                    getattr(mod, fn_name)()
+                    fn()
                     print("[selfcheck] ok   %s.%s" % (name, fn_name))
                 except Exception as exc:  # noqa
                     bad += 1
